@@ -5,6 +5,12 @@ use crate::logic::{self, Cx, Fl};
 use glam::{Affine3A, DAffine3, DMat3, DMat4, DQuat, DVec3, Mat3, Mat3A, Mat4, Quat, Vec3, Vec3A};
 use vcore::*;
 
+/// Vec3A probes carry junk in the padding lane (NaN-pattern derived from the visible lanes)
+#[allow(dead_code)]
+fn vec3a_junk(p: [f32; 3]) -> Vec3A {
+    Vec3A::from_vec4(glam::Vec4::new(p[0], p[1], p[2], f32::from_bits(0x7fc0_0000 ^ (p[2].to_bits() >> 7))))
+}
+
 macro_rules! cx {
     ($t:expr, $ty:expr) => {
         &mut Cx { t: &mut *$t, variant: VARIANT, ty: $ty }
@@ -77,7 +83,7 @@ look_suite!(check_look_f64, f64, DVec3, DMat4, DAffine3, DQuat, [DMat3]);
 
 macro_rules! proj3a {
     (f32, $cx:expr, $op:expr, $m:expr, $cols:expr, $p:expr, $got:expr) => {{
-        let g3a = $m.project_point3a(Vec3A::from_array($p)).to_array();
+        let g3a = $m.project_point3a(vec3a_junk($p)).to_array();
         logic::project::<f32>($cx, concat!("project_point3a"), $cols, $p, g3a)?;
         logic::same_forms::<f32>($cx, $got, g3a);
     }};
@@ -155,7 +161,7 @@ ortho_suite!(check_ortho_f64, f64, DVec3, DMat4);
 
 macro_rules! xform3a {
     (f32, $t:expr, $m:expr, $ma:expr, $af:expr, $cols:expr, $acols:expr, $p:expr, $g:expr) => {{
-        let pa = Vec3A::from_array($p);
+        let pa = vec3a_junk($p);
         let g = $m.project_point3a(pa).to_array();
         logic::project::<f32>(cx!($t, "Mat4"), "project_point3a", $cols, $p, g)?;
         logic::same_forms::<f32>(cx!($t, "Mat4"), $g[0], g);
